@@ -24,7 +24,7 @@ from elementpath.xpath_nodes import XPathNode, ElementNode, DocumentNode
 
 from elementpath.exceptions import ElementPathTypeError
 from elementpath.helpers import node_position
-from elementpath.xpath_context import XPathSchemaContext
+from elementpath.xpath_context import XPathContext, XPathSchemaContext
 from elementpath.xpath_tokens import XPathToken, NameToken, VariableToken, \
     ContextItemToken, AsteriskToken, ParentShortcutToken
 
@@ -426,6 +426,34 @@ def select__predicate(self: XPathToken, context: ta.ContextType = None) -> Itera
                 yield context.item
         elif self.boolean_value(predicate):
             yield context.item
+
+
+@method('[')
+def select_with_focus__predicate(self: XPathToken, context: XPathContext) \
+        -> Iterator[ta.ItemType]:
+    """
+    The items filtered by a predicate keep the direction of the step: for a second
+    predicate on a reverse axis step the context position is still counted in
+    reverse document order.
+    """
+    step = self
+    while step.symbol == '[' and len(step) == 2:
+        step = step[0]
+    if not getattr(step, 'reverse_axis', False):
+        yield from XPathToken.select_with_focus(self, context)
+        return
+
+    status = context.item, context.size, context.position, context.axis
+    context.axis = None
+    results = [x for x in self.select(context)]
+
+    context.axis = None
+    context.size = context.position = len(results)
+    for context.item in results:
+        yield context.item
+        context.position -= 1
+
+    context.item, context.size, context.position, context.axis = status
 
 
 ###
